@@ -131,6 +131,8 @@ Proof.
   - rewrite update_completed_length; auto. lia.
   - destruct (nth_error _ _); simpl; auto. destruct (f_pad _); simpl; auto.
   - destruct (create_chunk _ _ _ _ _); simpl; auto.
+  - destruct (create_chunk _ _ _ _ _); simpl; auto.
+    destruct (xfer _ _ _ _); simpl; auto. destruct w; simpl; auto.
 Qed.
 
 Lemma run_fcomp_length : forall c ops s, length (s_fcomp s) = length (c_files c) ->
